@@ -15,6 +15,9 @@ pub fn dispatch(cmd: &str, c: &Value) -> Value {
         "archive_ops" => archive_ops(c),
         "open_prefix" => open_prefix(c),
         "archive_fault" => archive_fault(c),
+        "fasta_parse" => fasta_parse(c),
+        "fasta_present" => fasta_present(c),
+        "pansn" => pansn(c),
         #[cfg(ekg_ragc_verif)]
         "range_query" => range_query(c),
         _ => json!({"error": format!("unknown command {}", cmd)}),
@@ -306,4 +309,69 @@ pub fn archive_fault(c: &Value) -> Value {
     let size = std::fs::metadata(&path).map(|m| m.len()).unwrap_or(0);
     let _ = std::fs::remove_file(&path);
     json!({ "reported_error": failed, "complete": complete, "size": size, "ok": failed || complete })
+}
+
+// ---------------------------------------------------------------- C16 / C19 FASTA reader
+pub fn parse_fasta_bytes(text: &[u8]) -> (Vec<(Vec<u8>, Vec<u8>)>, &'static str) {
+    let mut g = ragc_core::GenomeIO::new(std::io::Cursor::new(text.to_vec()));
+    let mut recs = vec![];
+    loop {
+        match g.read_contig_converted() {
+            Err(_) => return (recs, "err"),
+            Ok(None) => return (recs, "end"),
+            Ok(Some((h, s))) => recs.push((h.into_bytes(), s)),
+        }
+        if recs.len() > text.len() + 2 { return (recs, "more"); }
+    }
+}
+
+fn reference_fasta(text: &[u8]) -> (Vec<(Vec<u8>, Vec<u8>)>, bool) {
+    let code = |b: u8| -> u8 { match b.to_ascii_uppercase() { b'A' => 0, b'C' => 1, b'G' => 2, b'T' => 3, b'N' => 4, b'R' => 5, b'Y' => 6, b'S' => 7, b'W' => 8, b'K' => 9, b'M' => 10, b'B' => 11, b'D' => 12, b'H' => 13, b'V' => 14, b'U' => 15, _ => 30 } };
+    let mut recs: Vec<(Vec<u8>, Vec<u8>)> = vec![];
+    let mut leading = false;
+    for ln in text.split_inclusive(|&b| b == b'\n') {
+        if ln[0] == b'>' {
+            let s = String::from_utf8_lossy(ln).to_string();
+            recs.push((s.trim_start_matches('>').trim().as_bytes().to_vec(), vec![]));
+        } else if let Some(last) = recs.last_mut() {
+            for &b in ln { if b.is_ascii_alphabetic() { last.1.push(code(b)); } }
+        } else if ln.iter().any(|b| b.is_ascii_alphabetic()) { leading = true; }
+    }
+    (recs.into_iter().filter(|r| !r.1.is_empty()).collect(), leading)
+}
+
+pub fn fasta_parse(c: &Value) -> Value {
+    let text = bytes(&c["text"]);
+    let (recs, status) = parse_fasta_bytes(&text);
+    let (exp, _leading) = reference_fasta(&text);
+    let outside = text.first() != Some(&b'>') || {
+        // a nameless record with bases is outside the claim
+        let mut bad = false; let mut name_empty = false;
+        for ln in text.split_inclusive(|&b| b == b'\n') {
+            if ln[0] == b'>' { name_empty = String::from_utf8_lossy(ln).trim_start_matches('>').trim().is_empty(); }
+            else if name_empty && ln.iter().any(|b| b.is_ascii_alphabetic()) { bad = true; }
+        }
+        bad
+    };
+    let got: Vec<(Vec<u8>, Vec<u8>)> = recs.iter().filter(|r| !r.1.is_empty()).cloned().collect();
+    let ok = status == "err" || outside || got == exp;
+    let js: Vec<Value> = recs.iter().map(|(h, s)| json!([h, s])).collect();
+    json!({ "records": js, "status": status, "ok": ok })
+}
+
+pub fn fasta_present(c: &Value) -> Value {
+    let text = bytes(&c["text"]);
+    let (recs, status) = parse_fasta_bytes(&text);
+    let code = |b: u8| -> u8 { match b.to_ascii_uppercase() { b'A' => 0, b'C' => 1, b'G' => 2, b'T' => 3, b'N' => 4, b'R' => 5, b'Y' => 6, b'S' => 7, b'W' => 8, b'K' => 9, b'M' => 10, b'B' => 11, b'D' => 12, b'H' => 13, b'V' => 14, b'U' => 15, _ => 30 } };
+    let src: Vec<(Vec<u8>, Vec<u8>)> = c["source"].as_array().unwrap().iter().map(|r| (bytes(&r[0]), bytes(&r[1]).iter().map(|&b| code(b)).collect())).collect();
+    let js: Vec<Value> = recs.iter().map(|(h, s)| json!([h, s])).collect();
+    json!({ "records": js, "status": status, "ok": status == "end" && recs == src })
+}
+
+pub fn pansn(c: &Value) -> Value {
+    let h = String::from_utf8(bytes(&c["h"])).unwrap();
+    let (s, t) = ragc_core::genome_io::parse_sample_from_header(&h);
+    let parts: Vec<&str> = h.split('#').collect();
+    let (xs, xt) = if parts.len() >= 3 { (format!("{}#{}", parts[0], parts[1]), parts[2..].join("#")) } else { ("unknown".to_string(), h.clone()) };
+    json!({ "sample": s.as_bytes(), "contig": t.as_bytes(), "ok": s == xs && t == xt })
 }
